@@ -18,6 +18,16 @@ POOLS = {
     "concat": ["Total", "Price", "TotalPrice"],
     "shadow": ["String", "Option", "Vec", "string"],
     "keywords": ["self", "Self", "type", "Type", "crate", "loop"],
+    "keywords2": ["as", "async", "dyn", "try", "yield", "fn"],
+    "keywords3": ["in", "do", "box", "macro", "await", "abstract"],
+    "keywords4": ["break", "const", "continue", "else", "enum", "extern"],
+    "keywords5": ["false", "for", "if", "impl", "let", "match"],
+    "keywords6": ["mod", "move", "mut", "pub", "ref", "return"],
+    "keywords7": ["static", "struct", "super", "trait", "true", "unsafe"],
+    "keywords8": ["use", "where", "while", "become", "final", "override"],
+    "keywords9": ["priv", "typeof", "unsized", "virtual", "Match", "USE"],
+    "digits": ["a1", "a_1", "A1", "a1b"],
+    "caseruns": ["HTTPResponse", "httpResponse", "HttpResponse", "VendorRateID"],
     "prefixed": ["ns:a", "a", "x:a"],
     "nonascii": ["д", "Д", "é", "ß", "SS"],
     "depth": ["a"],
@@ -29,7 +39,9 @@ POOLS = {
     "suffixgap": ["foo", "Foo", "FOO", "foo_3"],
     "attrcase": ["ID", "Id", "item"],
 }
-ATTRS = {"suffixlit": ["foo", "foo_attr"], "suffixgap": ["foo"], "xmlnsish": ["xml:lang", "x:p", "xmlns:n", "xmlnsx:q"], "attrcase": ["id", "Id"], "default": ["p"], "fields": ["text", "type"], "fields2": ["p", "type"], "prefixed": ["xmlns:n", "n:p"]}
+ATTRS = {"keywords2": ["type", "ref"], "keywords3": ["in", "use"], "keywords4": ["enum", "static"], "keywords5": ["for", "let"],
+         "keywords6": ["mod", "pub"], "keywords7": ["struct", "true"], "keywords8": ["where", "while"], "keywords9": ["virtual", "yield"],
+         "digits": ["a1", "A1"], "suffixlit": ["foo", "foo_attr"], "suffixgap": ["foo"], "xmlnsish": ["xml:lang", "x:p", "xmlns:n", "xmlnsx:q"], "attrcase": ["id", "Id"], "default": ["p"], "fields": ["text", "type"], "fields2": ["p", "type"], "prefixed": ["xmlns:n", "n:p"]}
 
 
 def atom(ch):
@@ -210,6 +222,15 @@ def random_trees(rep, pid, tier, relevant, n=None, ops=40, opts="two", extra_opt
                           "operation %s is not a step ApiTrace allows" % str((x.get("event") or {}).get("op"))[:200])
         rep.add(api_steps_validated=acc, traces_validated_against_impl=acc)
     return cnt
+
+
+def keyword_pools(tier):
+    """all reserved words of convert_string are covered across the keyword pools; quick runs two of them per seed"""
+    ks = ["keywords%d" % i for i in range(2, 10)]
+    if tier == "thorough":
+        return ks
+    k = c.seed() % len(ks)
+    return [ks[k], ks[(k + 3) % len(ks)]]
 
 
 def c09_render(rep, tier):
